@@ -376,6 +376,42 @@ def c12_scopes(R):
                 continue
             if kind in SCOPE_NODES and not kids:
                 continue
+            if kind == "IfStatement":
+                # The two branches of an if are DISJOINT sibling scopes (C12: "a variable of the same or an enclosing block, loop header or
+                # branch" is visible; "disjoint sibling scopes may reuse a name"): a declaration made directly in the then-branch
+                # (`if (c) int x = 1; else ...`) must not be visible in the else-branch, and vice versa.
+                by = {getattr(ch, "tag", None): c for ch, c in seen}
+                okc = all(isinstance(c, cls.Context) and c is not incoming and c.Get("outer") is not None for c in ctxs)
+                R.check(f"C12.scopes.fresh[{lab}]", fn, bool(ctxs) and okc, detail=f"IfStatement: condition and branches must be visited with new contexts chained to the incoming one")
+                if okc and by.get("t") is not None:
+                    by["t"].Add("only_then", _loc("only_then"))
+                    R.check(f"C12.scopes.drop[{lab}]", fn, incoming.Get("only_then") is None, detail="a name declared in a branch is visible after the if statement")
+                    if by.get("f") is not None:
+                        by["f"].Add("only_else", _loc("only_else"))
+                        R.check(f"C12.scopes.branches-disjoint[{lab}]", fn, by["f"].Get("only_then") is None and by["t"].Get("only_else") is None,
+                                detail="a name declared directly in one branch of an if is visible in the other branch (one scope for both branches)",
+                                replay=script("""
+                                    import io, contextlib
+                                    from nsl import Compiler, LinearIR, VM
+                                    bad = False
+                                    for src, want in (('export function f(int c) -> int { int r = 0; if (c > 0) int x = 1; else r = x; return r; }', 'rejected'),
+                                                      ('export function f(int c) -> int { int r = 0; if (c > 0) int x = 1; else int x = 2; return r; }', 'accepted')):
+                                        try:
+                                            with contextlib.redirect_stdout(io.StringIO()):
+                                                r = Compiler.Compiler().Compile(src)
+                                        except BaseException as e:
+                                            r = None; print('rejected by', type(e).__name__, e)
+                                        got = 'accepted' if r is not None else 'rejected'
+                                        print(src, '->', got, '; C12 expects', want)
+                                        bad = bad or got != want
+                                    if bad: print('REPLAY-CONFIRMED')
+                                    """))
+                if child_raises:
+                    R.check(f"C12.scopes.invalid[{lab}]", fn, v.valid is False and step.raised is None, detail=f"a redeclaration below {kind}: valid={v.valid} raised={step.raised!r}")
+                else:
+                    R.check(f"C12.scopes.all[{lab}]", fn, sorted(id(x) for x, _ in seen) == sorted(id(k) for k in kids) and step.raised is None and v.valid is True,
+                            detail=f"visited {[getattr(x, 'tag', '?') for x, _ in seen]} of {[getattr(k, 'tag', '?') for k in kids]}; valid={v.valid}; raised={step.raised!r}")
+                continue
             if kind in SCOPE_NODES:
                 fresh = bool(ctxs) and all(isinstance(c, cls.Context) for c in ctxs) and len(set(map(id, ctxs))) == 1 and ctxs[0] is not incoming
                 parent_ok = fresh and ctxs[0].Get("outer") is not None
@@ -442,6 +478,12 @@ def _c12_programs():
     out.append((pre + "int g;\nexport function f(int p) -> int { return p; }", True))
     out.append((pre + "export function f(int p, int p) -> int { return p; }", True))
     out.append((pre + "function h(int q) -> int { int w = q; return w; }\nexport function f(int p) -> int { int w = p; int q = 2; return (w + q); }", False))
+    # the two branches of an if are disjoint scopes even without braces
+    out.append((prog("if (o < 3) int s = 1; else int s = 2;"), False))
+    out.append((prog("if (o < 3) int s = 1; else o = s;"), True))
+    out.append((prog("if (o < 3) int s = 1; o = s;"), True))
+    out.append((prog("if (o < 3) { o = 2; } else int o = 2;"), True))
+    out.append((prog("if (o < 3) int z = 1; else { int z = 2; o = z; }"), False))
     # use after scope end is rejected (unknown symbol)
     out.append((prog("{ int s = 1; } o = s;"), True))
     out.append((prog("for (int i = 0; i < 2; ++i) { o = i; } o = i;"), True))
